@@ -16,7 +16,9 @@ def handlers : List (String × (String → Json → Except String Json)) := [
   ("c12", Aeic.EI.handle),
   ("c03", Aeic.StoreCodec.handle),
   ("geo", Aeic.Geo.handle),
-  ("wind", Aeic.Wind.handle)
+  ("wind", Aeic.Wind.handle),
+  ("c02", Aeic.Builder.handleC02),
+  ("c17", Aeic.Builder.handleC17)
 ]
 
 def dispatch (op : String) (j : Json) : Except String Json :=
